@@ -4,6 +4,7 @@ import Casm.Model.OutFormat
 import Casm.Model.Layout
 import Casm.Model.CharCounter
 import Casm.Model.FileNav
+import Casm.Model.Driver
 /-! casm-model: answers the line protocol from the Lean model's executable definitions. -/
 open Casm
 
@@ -190,6 +191,27 @@ def step (line : String) : String :=
         | .error .endsAfterEof => "err endsAfterEof"
         | .error .invalidChar => "err invalidChar"
     | _, _, _, _ => "bad-op"
+  | "drv" :: mode :: unw :: argv =>
+    -- stand-in assembler for the fixed program family of the driver checks:
+    --   good:  `val = 5` / `#d8 val, 0x34`   (a define of `val` replaces 5; any other define is unused -> error)
+    --   bad:   a program with one error
+    let args := "customasm" :: argv.map fun a => String.ofList (unhexText a)
+    let unwritable := if unw == "-" then [] else (unw.splitOn ",").map fun a => String.ofList (unhexText a)
+    let asm : Command → AsmResult := fun cmd =>
+      if mode != "good" then .failed 1
+      else if cmd.defines.any (fun d => d.1 != "val") then .failed 1
+      else
+        let v : Option Int := match cmd.defines.filter (·.1 == "val") |>.getLast? with
+          | some (_, .int v _) => some v
+          | some (_, .bool _) => none
+          | none => some 5
+        match v with
+        | some v => if 0 ≤ v ∧ v < 256 then .output (toBitsMSB 8 v.toNat ++ toBitsMSB 8 0x34) [⟨some 0, 8⟩, ⟨some 8, 8⟩] else .failed 1
+        | none => .failed 1
+    let o := drive args asm unwritable
+    let ws := if o.writes.isEmpty then "-" else ",".intercalate (o.writes.map fun (n, d) =>
+      s!"{hexOfChars n.toList}:{match d with | some bs => hexOfBytes bs | none => "?"}")
+    s!"ok={o.ok} err={match o.errors.head? with | some e => hexOfChars e.toList | none => "-"} asmerr={o.asmErrors} writes={ws} prints={o.prints}"
   | _ => "bad-op"
 
 partial def loop (h : IO.FS.Stream) (out : IO.FS.Stream) : IO Unit := do
